@@ -26,6 +26,10 @@
   * an info area is at least 8 bytes (version, length, …, C1h, checksum): a length byte 00h is
          never valid, and the declared length has to lie inside the data the area is read from;
          its zero checksum is over exactly the declared length
+  * the predefined fields, the custom fields and the C1h byte of an info area lie INSIDE its declared
+         length, in front of its checksum byte (§10–12: they are the area's contents); the areas the
+         common header announces do not overlap (`fieldsOk`, `layoutOk`; `imageOk` = every check a
+         reader of this format can make)
 
   `FruImage` is the abstract content, `encodeFru` the storage image, `view` what a faithful
   parser has to report for it, `checksumsOk` the acceptance condition the format defines.
@@ -421,6 +425,124 @@ def checksumsOk (bs : List Nat) : Bool :=
   (bs.getD 3 0 == 0 || areaSumOk (areaAt bs 3)) &&
   (bs.getD 4 0 == 0 || areaSumOk (areaAt bs 4)) &&
   (bs.getD 5 0 == 0 || multiSumOk (areaAt bs 5))
+
+/-! ### the fields of an info area lie inside the area (§10–12)
+
+The length byte says how many bytes belong to the area; its last byte is the checksum.  The
+predefined fields, the custom fields and the C1h "no more fields" byte are PART of the area: a
+reader walks the type/length bytes (§13: bits 5:0 = number of data bytes that follow) from the first
+field – chassis and product areas: area offset 3, board area: offset 6 (behind the 3-byte
+manufacturing date) – through the predefined fields (2 / 5 / 7) and then the custom fields until it
+meets C1h, and every byte it looks at has to lie in front of the area's checksum byte.  An area in
+which a field or the end marker would lie behind the declared length is not an info area of this
+format, whatever its checksum says.  Keyed by the header byte `k` that announces the area
+(2 chassis, 3 board, 4 product). -/
+
+/-- area offset of the first predefined type/length byte -/
+def firstFieldAt : Nat → Nat
+  | 3 => 6
+  | _ => 3
+
+/-- number of predefined fields -/
+def predefined : Nat → Nat
+  | 2 => 2
+  | 3 => 5
+  | _ => 7
+
+/-- skip `n` type/length fields; `none` when a type/length byte or a field body does not fit into
+the bytes given -/
+def skipFields : Nat → List Nat → Option (List Nat)
+  | 0, d => some d
+  | _ + 1, [] => none
+  | n + 1, b :: t => if t.length < b % 64 then none else skipFields n (t.drop (b % 64))
+
+/-- custom fields up to the C1h byte: `true` iff the marker is reached with every field inside the
+bytes given (every step consumes at least one byte: `fuel` = number of bytes is enough) -/
+def endMarkerIn : Nat → List Nat → Bool
+  | 0, _ => false
+  | _ + 1, [] => false
+  | fuel + 1, b :: t =>
+    b == endOfFields || (decide (b % 64 ≤ t.length) && endMarkerIn fuel (t.drop (b % 64)))
+
+/-- the part of an info area `d` (bytes from the area offset on) in which its fields lie: behind
+the fixed bytes, in front of the checksum byte at `8·d[1] - 1` -/
+def fieldBytes (k : Nat) (d : List Nat) : List Nat :=
+  (d.take (8 * d.getD 1 0 - 1)).drop (firstFieldAt k)
+
+def fieldsInside (k : Nat) (d : List Nat) : Bool :=
+  match d with
+  | [] => true       -- the header's offset points behind the end of the data: no area bytes at all
+  | _ =>
+    match skipFields (predefined k) (fieldBytes k d) with
+    | none => false
+    | some r => endMarkerIn r.length r
+
+def fieldsOk (bs : List Nat) : Bool :=
+  (bs.getD 2 0 == 0 || fieldsInside 2 (areaAt bs 2)) &&
+  (bs.getD 3 0 == 0 || fieldsInside 3 (areaAt bs 3)) &&
+  (bs.getD 4 0 == 0 || fieldsInside 4 (areaAt bs 4))
+
+/-! ### the areas do not overlap (§8: "offsets" of separate areas)
+
+Every area the common header announces (bytes 1..5: internal use, chassis, board, product,
+multi-record) starts at 8 × its offset byte.  An info area extends over its declared length, the
+multi-record area over its chain of records (5 header bytes + the length byte's data bytes each, up
+to the end-of-list flag); the internal use area has no length of its own.  In a FRU image these spans
+are disjoint: no area starts inside the span of another one (two areas at the same offset included). -/
+
+/-- bytes occupied by the chain of records (`fuel` ≥ number of records) -/
+def multiLen : Nat → List Nat → Nat
+  | 0, _ => 0
+  | fuel + 1, d =>
+    d.getD 2 0 + 5 + (if d.getD 1 0 / 128 % 2 == 1 then 0 else multiLen fuel (d.drop (d.getD 2 0 + 5)))
+
+def multiSpan (d : List Nat) : Nat := multiLen d.length d
+
+/-- start of the area announced by header byte `k` (0: absent) -/
+def startOf (bs : List Nat) (k : Nat) : Nat := 8 * bs.getD k 0
+
+/-- declared extent of the area announced by header byte `k` (1 internal use: none) -/
+def spanOf (bs : List Nat) (k : Nat) : Nat :=
+  if bs.getD k 0 == 0 then 0
+  else if k = 5 then multiSpan (areaAt bs 5)
+  else if k = 1 then 0
+  else 8 * (areaAt bs k).getD 1 0
+
+/-- an area that starts at `o` lies inside the span `[s, s + len)` of another one -/
+def startsInside (s len o : Nat) : Bool :=
+  decide (s ≠ 0) && decide (o ≠ 0) && decide (s ≤ o) && decide (o < s + len)
+
+/-- the ordered pairs of different areas -/
+def areaPairs : List (Nat × Nat) :=
+  [(1, 2), (1, 3), (1, 4), (1, 5), (2, 1), (2, 3), (2, 4), (2, 5), (3, 1), (3, 2), (3, 4), (3, 5),
+   (4, 1), (4, 2), (4, 3), (4, 5), (5, 1), (5, 2), (5, 3), (5, 4)]
+
+/-- `starts`, `spans`: functions of the header byte index 1..5 -/
+def disjointAreas (starts spans : Nat → Nat) : Bool :=
+  areaPairs.all fun p => !startsInside (starts p.1) (spans p.1) (starts p.2)
+
+def layoutOk (bs : List Nat) : Bool := disjointAreas (startOf bs) (spanOf bs)
+
+/-! ### every check a reader of this format can make
+
+`imageOk`: all zero-sum checksums over the spans the bytes themselves declare, all fields and end
+markers inside those spans, areas disjoint.  This is what "accepted" has to imply, and an image that
+satisfies it is – for a reader – a FRU image. -/
+
+def imageOk (bs : List Nat) : Bool := checksumsOk bs && fieldsOk bs && layoutOk bs
+
+/-- the bytes an info area needs (version, length, fixed bytes, fields, C1h, checksum) – what is
+left of its declared length is unused space.  For the info area whose LENGTH BYTE is at position `i`
+of the encoded image (0 when `i` is no such position). -/
+def optNat {α} (f : α → Nat) : Option α → Nat
+  | none => 0
+  | some a => f a
+
+def lengthByteNeed (img : FruImage) (i : Nat) : Nat :=
+  if img.chOff ≠ 0 ∧ i = img.chOff + 1 then optNat (fun c : Chassis => c.toArea.need) img.chassis
+  else if img.bdOff ≠ 0 ∧ i = img.bdOff + 1 then optNat (fun b : Board => b.toArea.need) img.board
+  else if img.prOff ≠ 0 ∧ i = img.prOff + 1 then optNat (fun p : Product => p.toArea.need) img.product
+  else 0
 
 /-! ### which bytes of an encoded image are covered by a checksum -/
 
